@@ -190,6 +190,25 @@ COMPUTE_RULE = (
     "multi-batch call, resumed call (max_from>0), truncate-and-regrow, version bump, target IO, repeated calls; distinct = distinct (method, op-tag sequence)"
 )
 
+
+def proj_all(body):
+    return body
+
+
+def codec_features(case):
+    kinds = set()
+    for op, obs in zip(case["ops"][1:], case["impl"][1:]):
+        a = split_obs(obs)[0].split()
+        kinds.add(op.split()[0] + ":" + (a[0] if a else "?"))
+    return list(case["ops"][1:]), (kinds if len(kinds) >= 3 else set())
+
+
+CODEC_RULE = (
+    "per case 60 decoder inputs drawn from: metadata slots with fields at and around their limits and optional single-bit damage or wrong total size, "
+    "little-endian integers and byte arrays of right and wrong length, and crafted metadata files with interleaved valid / zero / garbage / rule-violating slots; "
+    "a case is non-trivial when it produced at least three different (request kind, answer kind) pairs; distinct = distinct input lists"
+)
+
 VEC_RULE = (
     "histories generated by harness/src/vec_engine.rs over 14 format×type combinations (BytesVec u16/u64/u128/f32, ZeroCopyVec u32/u64, "
     "PcoVec u32/u64/i64/f64, LZ4Vec u64/u128, ZstdVec u16/u32), values incl. 0, MAX, sign boundary and random bit patterns, bulk pushes of "
@@ -216,6 +235,9 @@ ENGINES.append({"name": "vec", "path": "harness/src/vec_engine.rs + lean/Driver/
 
 ENGINES.append({"name": "compute", "path": "harness/src/compute_engine.rs + lean/Driver/ComputeProto.lean", "serves_properties": ["C06", "C19"],
      "kind_free_text": "32 exact EagerVec::compute_* methods over histories of source appends, truncate-and-regrow, redundant calls, target write/flush/re-import and source version bumps, with the internal batch capacity forced to 1/2/3/7/64 elements; three-way comparison: incremental result = from-scratch run of the implementation = defining formula evaluated by the Lean driver; closure evaluation log and recorded version for C19"})
+
+ENGINES.append({"name": "codec", "path": "harness/src/codec_engine.rs + lean/Driver/CodecProto.lean", "serves_properties": ["C17"],
+     "kind_free_text": "valid, boundary and mutated encodings (field values 0, page multiples ± 1, 2^32, 2^63, u64::MAX, name lengths 0/1/1023/1024/1025, invalid UTF-8 classes, wrong slot sizes, bit flips) fed to the real decoders under catch_unwind and to the Lean decoders; whole crafted metadata files opened by Database::open and compared with the model's fill"})
 
 NOT_CLAIMED = {}
 
@@ -312,6 +334,17 @@ PROPS = {
         level_text="Lean 4 theorems: with retention k≥1 the directory holds at most k records after a commit, none at or above the new stamp except the new one, and only records that were there before (C16_prune_*); a rollback whose record is missing, or does not parse — truncated at ANY byte offset, counts that overflow or exceed the input — fails and leaves the ENTIRE model state unchanged (C16_missing_refused, C16_unparsable_refused, C16_parse_short, C16_count_guard: counts are checked against the remaining input before anything is read or allocated); a record whose redundant length fields disagree is refused (C16_prevStoredLen_checked). Tied to the code by the fault stream: same answer kind, same state, same directory listing on the real vectors and the model, plus oracles: err ⇒ unchanged; success over a damaged record ⇒ contents are a committed state; retention window respected.",
         level_note="Trusted: Lean kernel + standard axioms; hand-written model; harness. F11 (record with prev_stored_len overwritten was applied; SIGSEGV on the real code) was found here and repaired by a fix: commit.",
         technique="Lean 4 proof over the change-record parser and retention rule + fault-injection correspondence (deleted / truncated / length-field-damaged records)",
+    ),
+    "C17": dict(
+        lean="AnyDB.Props.C17",
+        runs=[
+            Run("codec", "decoders", [], (160, 60), (3000, 120), proj_all, ["C17", "panic"], codec_features),
+        ],
+        rule=CODEC_RULE,
+        assumptions=["Rust's String::from_utf8 accepts exactly the well-formed sequences of Unicode Table 3-7 (the model's validator; differential-tested)", "Page and HeaderInner decoders are not public: their byte layout is proved here and exercised through the vec engine (C03/C07) and import (C14)"],
+        level_text="Lean 4 theorems over the field layout regenerated from the Rust source on every run: every w-byte little-endian integer below 256^w decodes to itself and a slice of another length is refused (C17_le_rt, C17_le_len, C17_array_rt); every valid region-metadata entry round-trips (C17_meta_rt), whatever decodes satisfies the validity rules — aligned start, page-multiple reserve ≥ a page, len ≤ reserve, name ≤ 1024 bytes of valid UTF-8 (C17_meta_valid), any other size is refused (C17_meta_size), each slot is decoded on its own at open (C17_fill_independent); vector header, page-index entry and format byte round-trip for all values (C17_header_rt, C17_page_rt, C17_format_rt); the change-record parser's totality and count guards are C16's. Tied to the code by the codec engine: same answer (kind and fields) from the real decoders and the Lean decoders on valid, boundary and mutated inputs, panics caught, and real Database::open on crafted metadata files = model fill.",
+        level_note="Trusted: Lean kernel + standard axioms; tools/extract.py (regex) for the layout constants; hand-written decoders tied by differential run. 'Never allocates beyond the input' is argued from the model (counts are compared with the remaining input before reading) and not measured on the implementation.",
+        technique="Lean 4 proof of encode/decode round trips and validity of decoded values over extracted layouts + differential decoding of boundary/mutated inputs",
     ),
     "C13": dict(
         lean="AnyDB.Props.C13",
